@@ -1031,6 +1031,18 @@ theorem simdReduceAxisK_int_eq_scalar (w N : Nat) (hN : 0 < N) (o : IOp) (a : ND
       = (scalarReduceAxisK o.lane a axis keep).map (fun b => (reduceOutShape a.shape axis keep, b)) :=
   simdReduceAxisK_eq_scalar N hN (packInt o) o.lane o.identity (intIdentity_monoid w o) (packInt_laneWise w N o) a hw hs axis hlt axisI hax keep
 
+/-- **integer matmul: SIMD = Σ_k a[m,k]·b[k,n] in modular arithmetic, exactly**: on integer lanes `fmadd` is `mullo` then `add`
+    (x86 SSE; `(a * b) + c` for the vector extensions), modular `+` is a commutative monoid, so the lane-strided
+    association of `eval_matmul` and the scalar evaluator's left-to-right sum agree bit for bit (no rounding, unlike the
+    floating-point statement `simdEvalMatmul_eq_scalar`). -/
+theorem simdEvalMatmul_int_eq_scalar (w N : Nat) (hN : 0 < N) (a b : NDA (BitVec w)) (M K Nn : Nat)
+    (ha : a.shape = [M, K]) (hb : b.shape = [K, Nn]) (hwa : a.WF) (hwb : b.WF) (hK : 0 < K)
+    (hra : a.colMajor = false) (hcb : b.colMajor = true) (out : List (BitVec w)) (ho : out.length = M * Nn) :
+    simdEvalMatmul N (fun x y z => x * y + z) (· * ·) (· + ·) (0 : BitVec w) a b M K Nn out
+      = scalarMatmulNDA (· * ·) (· + ·) (0 : BitVec w) a b M K Nn :=
+  simdEvalMatmul_eq_scalar N hN (fun x y z => x * y + z) (· * ·) (· + ·) (0 : BitVec w)
+    ⟨BitVec.add_assoc, BitVec.add_comm, BitVec.zero_add⟩ (fun _ _ _ => rfl) (by simp) a b M K Nn ha hb hwa hwb hK hra hcb out ho
+
 /-- **a saturating instruction is not lane-wise** (what `_mm_subs_epi16` in place of `_mm_sub_epi16` computes):
     30000 − (−10000) saturates to 32767, the scalar functor / NumPy give −25536 -/
 theorem satSubS_not_laneWise : ¬ LaneWise2 8 (List.zipWith (satSubS (w := 16))) IOp.sub.lane := by
@@ -1043,6 +1055,17 @@ theorem satAddU_not_laneWise : ¬ LaneWise2 32 (List.zipWith (satAddU (w := 8)))
   intro h
   have := h (List.replicate 32 200#8) (List.replicate 32 100#8) rfl rfl
   revert this; decide
+
+/-- **known finding vector-extension.uninitialised-lanes**: the register type of the vector-extension contexts is declared
+    with `vector_size(bit_width / sizeof(T))` BYTES: for `vector_128` and `int16_t` that is 32 lanes of which 8 are ever
+    loaded; the other 24 are indeterminate and are multiplied / added with the rest (UBSan: signed integer overflow on
+    values that are not in the input).  Results are unaffected (only the filled lanes are stored). -/
+theorem vectorExtension_lanes_counterexample :
+    vecExtTypeLanes 128 2 = 32 ∧ vecExtUsedLanes 128 2 = 8 ∧ vecExtTypeLanes 512 1 = 512 ∧ vecExtUsedLanes 512 1 = 64 := by decide
+
+/-- … the declared type has exactly the lanes in use only for 8-byte element types (`double`, `int64_t`, `uint64_t`) -/
+theorem vectorExtension_lanes_exact_iff :
+    ∀ bw ∈ [128, 256, 512], ∀ sz ∈ [1, 2, 4, 8], (vecExtTypeLanes bw sz = vecExtUsedLanes bw sz ↔ sz = 8) := by decide
 
 -- non-vacuity / instances
 example : (⟨16, true⟩ : IntTy).decode (IOp.sub.lane (BitVec.ofInt 16 30000) (BitVec.ofInt 16 (-10000))) = -25536 := by decide
@@ -1059,5 +1082,8 @@ example : simdEvalReduceAll 4 (packInt .mul) IOp.mul.lane IOp.mul.identity ⟨[5
 example : (IOp.sub.identity (w := 8)) = none ∧ (IOp.add.identity (w := 8)) = some 0 := by decide
 example : satSubS (BitVec.ofInt 16 30000) (BitVec.ofInt 16 (-10000)) = BitVec.ofInt 16 32767 := by decide
 example : satAddU 200#8 100#8 = 255#8 := by decide
+example : simdEvalMatmul 8 (fun x y z => x * y + z) (· * ·) (· + ·) (0 : BitVec 16)
+    ⟨[1,9], false, (List.replicate 9 (BitVec.ofInt 16 4000))⟩ ⟨[9,1], true, (List.replicate 9 (BitVec.ofInt 16 1000))⟩ 1 9 1 [0]
+    = some [BitVec.ofInt 16 (9 * 4000 * 1000)] := by decide
 
 end NmVerif.Props.C12
